@@ -67,6 +67,13 @@ def run_case(rng):
         kw_base = kw['base_folder']
         with pgm.quiet():
             col.dig_from_waveguide(wgs)
+        if rng.random() < 0.3:
+            # the column's depth parameters are public attributes: read the estimates, then change them before exporting
+            _ = (col.n_repeat, col.fabrication_time, col.total_height)
+            col.h_box = kw['h_box'] = rng.choice([0.05, 0.075, 0.1])
+            col.deltaz = kw['deltaz'] = rng.choice([0.02, 0.01, 0.033])
+            col.z_off = kw['z_off'] = rng.choice([-0.02, 0.0])
+            kw['reparameterised'] = True
         cols.append(col)
         descrs.append({'layout': {k: v for k, v in descr.items() if k != 'calls'}, 'column': kw, 'blocks': len(col._trench_list)})
     if len({c.base_folder for c in cols}) > 1:
@@ -194,7 +201,7 @@ def run(rep: common.Report, tier: str, seed: int):
     fails = common.run_model('C06', 'Harness.C06', 'C06.case', 'C06.failing', lits, shard=2, extra_imports=IMPORTS, timeout=1500)
     names = ['farcall-file-tokens', 'wall-floor-bed-tokens', 'main-tokens', 'parse', 'call-of-missing-or-unloaded-program',
              'program-left-loaded', 'shutter-left-open', 'shutter-open-outside-sub-program-chains', 'chain-entered-away-from-its-first-point',
-             'chain-holds-non-move-instructions', 'depth-not-covered']
+             'chain-holds-non-move-instructions', 'depth-not-covered', 'n_repeat-not-from-current-parameters']
     for idx, code in fails:
         which = [names[k] for k in range(len(names)) if code >> k & 1]
         c = cases[idx]
